@@ -14,7 +14,7 @@ func VerifH_C03_icmp() {
 	r := &scan.Range{}
 	withNet := verifParam("TGT", 1) == 1
 	if withNet {
-		r.DstSubnet = &net.IPNet{IP: net.IPv4(192, 168, 0, 0).To4(), Mask: net.CIDRMask(24, 32)}
+		r.DstSubnet = c03Subnets[verifParam("SUBNET", 0)]()
 	}
 	text, snap := BPFFilter(r)
 	prog, err := c03Compile(vpn, snap, text)
@@ -44,7 +44,7 @@ func VerifH_C03_icmp() {
 	shape := false
 	if isICMP {
 		src := b[off+12 : off+16]
-		shape = b[t] != 8 && (!withNet || (src[0] == 192 && src[1] == 168 && src[2] == 0))
+		shape = b[t] != 8 && (!withNet || c03InNet(src, r.DstSubnet))
 		if passR {
 			rec := res.got[0].(*ScanResult)
 			verifAssert(rec.IP == net.IP(src).String() && rec.TTL == b[off+8], "record address/TTL are not the frame's")
@@ -57,5 +57,18 @@ func VerifH_C03_icmp() {
 		verifAssert(passR, "a reply-shaped frame is not reported by the processor")
 	} else {
 		verifAssert(!(passB && passR), "a frame that is not reply-shaped passes the filter and is reported")
+	}
+	if passR && isICMP {
+		// a later reply must not change the record already emitted
+		rec := res.got[0].(*ScanResult)
+		ip0, ttl0, typ0, code0 := rec.IP, rec.TTL, rec.ICMP.Type, rec.ICMP.Code
+		var f2 []byte
+		if !vpn {
+			f2 = append(f2, 0x10, 0x11, 0x12, 0x13, 0x14, 0x15, 0x00, 0x0c, 0x29, 0x04, 0x05, 0x07, 0x08, 0x00)
+		}
+		f2 = append(f2, 0x45, 0, 0, 28, 0x12, 0x34, 0x40, 0, 61, 1, 0, 0, 192, 168, 0, 9, 192, 168, 0, 3, 3, 13, 0, 0, 0, 1, 0, 2)
+		_ = pp.ProcessPacketData(f2[:len(f2):len(f2)], nil)
+		verifAssert(rec.IP == ip0 && rec.TTL == ttl0 && rec.ICMP != nil && rec.ICMP.Type == typ0 && rec.ICMP.Code == code0,
+			"an already emitted record changed when a later frame was processed (shared storage)")
 	}
 }
